@@ -923,8 +923,17 @@ def rule_display(ctx, rep, rid="R-C05-display"):
             # in a closure: the enclosing function's project counts when the closure is created after it
             if not have and b.f["dk"] == "Closure":
                 par = ctx.prog.bodies.get(b.f.get("parent"))
-                if par is not None and any("FileBackedProject" in par.local_ty(l) and not par.local_ty(l).startswith("&") for l in range(1, len(par.f["locals"]))):
-                    have.append("(of the enclosing function)")
+                if par is not None:
+                    # where the closure is created in the enclosing function: a project counts when its definition dominates that place
+                    made = [i_ for i_, _, st_ in par.all_stmts() if st_[0] == "=" and st_[2][0] == "agg" and isinstance(st_[2][1], dict) and st_[2][1].get("k") == "closure" and norm(st_[2][1].get("def", "")) == norm(b.id)]
+                    pdom = par.dominators()
+                    for l in range(1, len(par.f["locals"])):
+                        ty_ = par.local_ty(l)
+                        if "FileBackedProject" not in ty_ or ty_.startswith("&") or "Option<" in ty_:
+                            continue
+                        for dd in par.defs.get(l, []):
+                            if not made or any(dd[1] in pdom.get(m_, ()) and dd[1] != m_ for m_ in made):
+                                have.append("(of the enclosing function)")
             if have:
                 r.finding(inst + "|no-project", where, "a project exists here (%s) but the diagnostics are shown without it: every label is placed at 1:1 of an empty line instead of in the text it is about" % ", ".join(sorted(set(have))))
             else:
